@@ -103,6 +103,13 @@ func rulesC09(p *Prog, r *Report) {
 						if !p.onlyRecordFields(args[3], "Vault", map[string]bool{"AmountOut": true, "InterestAccumulated": true, "ClosingFeeAccumulated": true}) {
 							bad = "the debt passed to the ratio computation is not built from the vault's recorded principal, interest and closing fee only"
 						}
+						// ... and from all three of them: a vault that is unsafe only once interest or the
+						// closing fee is counted must be seized
+						for _, need := range []string{"AmountOut", "InterestAccumulated", "ClosingFeeAccumulated"} {
+							if !p.fromRecordFieldsLoose(args[3], map[string]bool{"Vault": true}, map[string]bool{need: true}) {
+								bad = "the debt that decides the seizure leaves out the vault's " + need
+							}
+						}
 					}
 					if st.kind == "borrow" && len(args) >= 5 {
 						if !p.onlyRecordFields(args[1], "BorrowAsset", map[string]bool{"AmountIn": true, "Amount": true}) {
